@@ -1,5 +1,5 @@
 //@unit tracker_watches
-//@props C14
+//@props C14 C13
 // The watch bookkeeping of ChainTracker (vls-core/src/chain/tracker.rs): notify_listeners_add / notify_listeners_remove
 // tell every monitor about a connected / disconnected block and apply what it answers (outpoints to start and to stop
 // watching) to its slot.  Decided here: each slot is updated by exactly its own monitor's answer, in the order the code
@@ -58,6 +58,12 @@ impl<T> VxSet<T> {
     pub fn extend(&mut self, v: Vec<T>) ensures final(self)@ == old(self)@.union(v@.to_set()) { unimplemented!() }
     #[verifier::external_body]
     pub fn remove(&mut self, x: &T) -> (r: bool) ensures final(self)@ == old(self)@.remove(*x) { unimplemented!() }
+    // Extend<&T>::extend(&set): every element of the other set is inserted
+    #[verifier::external_body]
+    pub fn vx_extend_set(&mut self, o: &VxSet<T>) ensures final(self)@ == old(self)@.union(o@) { unimplemented!() }
+    // `set.into_iter().collect()` into a Vec: the elements of the set, each once
+    #[verifier::external_body]
+    pub fn vx_into_vec(self) -> (r: Vec<T>) ensures r@.to_set() == self@, r@.no_duplicates() { unimplemented!() }
 }
 
 // OrderedMap<L::Key, (L, ListenSlot)> as the sequence of its values in key order (`values_mut()`): listener i and its slot
@@ -134,7 +140,54 @@ pub open spec fn rest_same<L: ChainListener>(a: ChainTracker<L>, b: ChainTracker
     && a.decode_state == b.decode_state
 }
 
+
+// ------------------------------------------------------------------ the watch set the unspent-output proof of a block is checked for (C13)
+// every outpoint some registered listener watches and, with `include_seen` (block removal), every outpoint some listener has
+// already seen spent - over the first n listeners
+pub open spec fn watched_upto<L: ChainListener>(ls: Seq<(L, ListenSlot)>, include_seen: bool, n: int) -> Set<OutPoint> decreases n {
+    if n <= 0 { Set::empty() }
+    else { watched_upto(ls, include_seen, n - 1).union(ls[n - 1].1.watches@).union(if include_seen { ls[n - 1].1.seen@ } else { Set::empty() }) }
+}
+pub open spec fn watched_outpoints<L: ChainListener>(listeners: VxListeners<L>, include_seen: bool) -> Set<OutPoint> {
+    watched_upto(listeners@, include_seen, listeners@.len() as int)
+}
+pub open spec fn txids_upto<L: ChainListener>(ls: Seq<(L, ListenSlot)>, n: int) -> Set<Txid> decreases n {
+    if n <= 0 { Set::empty() } else { txids_upto(ls, n - 1).union(ls[n - 1].1.txid_watches@) }
+}
+// nothing watched by any listener is missing from the set (what "for all watched outpoints" needs)
+pub proof fn c13_every_watch_is_in_the_set<L: ChainListener>(ls: Seq<(L, ListenSlot)>, include_seen: bool, n: int, i: int, o: OutPoint)
+    requires 0 <= i < n <= ls.len(), ls[i].1.watches@.contains(o) || (include_seen && ls[i].1.seen@.contains(o)),
+    ensures watched_upto(ls, include_seen, n).contains(o),
+    decreases n
+{
+    if i < n - 1 { c13_every_watch_is_in_the_set(ls, include_seen, n - 1, i, o); }
+}
+
 impl<L: ChainListener> ChainTracker<L> {
+
+//@fn vls-core/src/chain/tracker.rs :: impl<L: ChainListener> ChainTracker<L> :: get_all_watches props=C13
+    ensures
+        // the outpoints handed to the proof check are ALL outpoints watched by ANY registered listener (plus, for a removal,
+        // all those seen spent), nothing less
+        r.1@.to_set() == watched_outpoints(self.listeners, include_reverse),                          //[C13.watches.all-listeners-all-watches]
+        r.0@.to_set() == txids_upto(self.listeners@, self.listeners@.len() as int),
+//@sub /for \(_, slot\) in self\.listeners\.values\(\) \{/ => let vx_n = self.listeners.vx_len(); for vx_i in 0..vx_n { let slot = self.listeners.vx_take_slot(vx_i);
+//@sub /\.extend\(&slot\.(\w+)\)/ => .vx_extend_set(&slot.\1)
+//@sub /\((\w+)\.into_iter\(\)\.collect\(\), (\w+)\.into_iter\(\)\.collect\(\)\)/ => (\1.vx_into_vec(), \2.vx_into_vec())
+//@loop 1 iter=itw
+            invariant
+                vx_n == self.listeners@.len(), itw.snapshot.end == vx_n,
+                outpoint_watches@ == watched_upto(self.listeners@, include_reverse, itw.index@ as int),
+                txid_watches@ == txids_upto(self.listeners@, itw.index@ as int),
+//@end
+
+//@fn vls-core/src/chain/tracker.rs :: impl<L: ChainListener> ChainTracker<L> :: get_all_forward_watches props=C13
+    ensures r.1@.to_set() == watched_outpoints(self.listeners, false),                                //[C13.watches.forward-is-every-watch]
+//@end
+
+//@fn vls-core/src/chain/tracker.rs :: impl<L: ChainListener> ChainTracker<L> :: get_all_reverse_watches props=C13
+    ensures r.1@.to_set() == watched_outpoints(self.listeners, true),                                 //[C13.watches.reverse-adds-every-outpoint-seen-spent]
+//@end
 
 //@fn vls-core/src/chain/tracker.rs :: impl<L: ChainListener> ChainTracker<L> :: notify_listeners_add props=C14
     ensures
